@@ -84,6 +84,7 @@ def schemaHyps (envS : Sexp) (rtsS : List Sexp) (template : String) (ovS : List 
     let rt0 := rts.headD .any
     .list (.atom "hyp-failed" ::
       ((if noRequiredUndefAccepting env rt0 then [] else [Sexp.atom "NoRequiredUndefinedAcceptingProp"]) ++
+       (if intersectionsOfTypeofObject env rt0 then [] else [Sexp.atom "IntersectionsOfTypeofObject"]) ++
        (if noSplitIntersection env rt0 then [] else [Sexp.atom "NoSplitIntersection"]) ++
        (if noMultiValuedDiscriminator env rt0 then [] else [Sexp.atom "NoMultiValuedDiscriminator"]) ++
        (if noMixedIndexRT env rt0 then [] else [Sexp.atom "NoMixedIndexRT"]) ++
